@@ -706,6 +706,8 @@ pub fn explore_registry_from(ctx: &Ctx, max_depth: usize, prefix: &[ROp]) -> (Va
 thread_local! {
     /// the address the generator handed out last (None: it was not asked)
     static LAST_GENERATED: std::cell::RefCell<Option<String>> = const { std::cell::RefCell::new(None) };
+    /// (salted?, code id, instance id) the generator was last asked about
+    static LAST_IDS: std::cell::Cell<Option<(bool, u64, u64)>> = const { std::cell::Cell::new(None) };
 }
 
 /// Hands out addresses from a pool of two (unsalted) and of two, one shared with the first pool
@@ -717,11 +719,13 @@ struct PoolAddresses {
 
 impl cw_multi_test::AddressGenerator for PoolAddresses {
     fn contract_address(&self, _api: &dyn cosmwasm_std::Api, _storage: &mut dyn cosmwasm_std::Storage, code_id: u64, instance_id: u64) -> cw_multi_test::error::AnyResult<Addr> {
+        LAST_IDS.with(|l| l.set(Some((false, code_id, instance_id))));
         let a = self.pool[((code_id + instance_id) % 2) as usize].clone();
         LAST_GENERATED.with(|l| *l.borrow_mut() = Some(a.clone()));
         Ok(Addr::unchecked(a))
     }
-    fn predictable_contract_address(&self, _api: &dyn cosmwasm_std::Api, _storage: &mut dyn cosmwasm_std::Storage, _code_id: u64, _instance_id: u64, _checksum: &[u8], _creator: &cosmwasm_std::CanonicalAddr, salt: &[u8]) -> cw_multi_test::error::AnyResult<Addr> {
+    fn predictable_contract_address(&self, _api: &dyn cosmwasm_std::Api, _storage: &mut dyn cosmwasm_std::Storage, code_id: u64, instance_id: u64, _checksum: &[u8], _creator: &cosmwasm_std::CanonicalAddr, salt: &[u8]) -> cw_multi_test::error::AnyResult<Addr> {
+        LAST_IDS.with(|l| l.set(Some((true, code_id, instance_id))));
         let a = self.pool[1 + (salt[0] % 2) as usize].clone();
         LAST_GENERATED.with(|l| *l.borrow_mut() = Some(a.clone()));
         Ok(Addr::unchecked(a))
@@ -872,6 +876,7 @@ fn colliding_generators(ctx: &Ctx, depth: usize) -> Value {
                 let case = |what: &str, extra: Value| json!({"engine": "registry-colliding-generator", "history": path, "what": what, "detail": extra});
                 let before = app.storage().data.clone();
                 LAST_GENERATED.with(|l| *l.borrow_mut() = None);
+                LAST_IDS.with(|l| l.set(None));
                 let (code, creator, admin, label) = match op {
                     POp::Inst(code, c, v, _) => (*code, nm.creators[*c as usize].clone(), if *v == 0 { None } else { Some(nm.creators[0].clone()) }, if *v == 0 { "l" } else { "m" }),
                     POp::Inst2(code, _) => (*code, nm.creators[0].clone(), None, "s"),
@@ -902,6 +907,12 @@ fn colliding_generators(ctx: &Ctx, depth: usize) -> Value {
                 });
                 steps += 1;
                 let target = LAST_GENERATED.with(|l| l.borrow().clone());
+                // the supplied generator is asked about the code and the instance at hand, on both paths
+                if let Some((salted, code_seen, inst_seen)) = LAST_IDS.with(|l| l.get()) {
+                    if (code_seen, inst_seen) != (code, st.live.len() as u64) {
+                        ctx.violation("c11:address-generator-asked-about-other-ids", case("ids handed to the supplied address generator", json!({"salted": salted, "code_id_seen": code_seen, "instance_id_seen": inst_seen, "code_id": code, "contracts_so_far": st.live.len()})));
+                    }
+                }
                 let run = match run {
                     Err(p) => {
                         ctx.violation("c11:panic:custom-generator", case("panic", json!({"panic": p})));
